@@ -275,6 +275,17 @@ func (x *Exec) eval(env *Env, e Expr) (Value, types.Type) {
 		var guards []*Term
 		for _, v := range e.Vars {
 			t := env.resolveType(v.Type)
+			if _, isStruct := isStructType(t); isStruct {
+				var ts []*Term
+				for i, c := range comps(t) {
+					bv := mkVar(fmt.Sprintf("%s!q%d", v.Name, i), c.Sort)
+					bound = append(bound, bv)
+					ts = append(ts, bv)
+				}
+				val, _ := x.rebuild(t, ts)
+				ch.bind(v.Name, val, t)
+				continue
+			}
 			bv := mkVar(v.Name+"!q", scalarSort(t))
 			bound = append(bound, bv)
 			var val Value = bv
@@ -534,6 +545,17 @@ func (x *Exec) evalCall(env *Env, e *ECall) (Value, types.Type) {
 	case "errmsg":
 		v, _ := x.eval(env, e.Args[0])
 		return ufApp(&UF{"err_Error", []Sort{SInt}, SStr}, v.(*Term)), types.Typ[types.String]
+	}
+	if i := strings.LastIndex(e.Fn, "."); i >= 0 {
+		bare := e.Fn[i+1:]
+		_, isP := x.sp.Preds[bare]
+		_, isS := x.sp.SpecFns[bare]
+		_, isG := x.sp.Ghosts[bare]
+		if isP || isS || isG {
+			ne := *e
+			ne.Fn = bare
+			return x.evalCall(env, &ne)
+		}
 	}
 	if p, ok := x.sp.Preds[e.Fn]; ok {
 		return x.evalPredLike(env, e, p.Params, p.Body, p.PkgPath, boolT)
